@@ -45,7 +45,7 @@ def prog_from_beh(b):
     """BEH record of Gen_TestRun -> program dict with plain strings."""
     tests = []
     for r, s in zip(b["reg"], b["script"]):
-        tests.append({"g": chars(r["g"]), "n": chars(r["n"]), "ign": r["ign"],
+        tests.append({"g": chars(r["g"]), "n": chars(r["n"]), "ign": r["ign"], "after": [(o["op"], o["name"]) for o in r.get("after", [])],
                       "ph": [(s[p]["sets"], s[p]["ev"]) for p in ("setup", "body", "teardown")]})
     c = b["cfg"]
     return {"repeat": c["repeat"], "reverse": c["reverse"], "shuffle": c["shuffle"], "runIgnored": c["runIgnored"],
@@ -71,6 +71,7 @@ def prog_lines(p):
         for sets, ev in t["ph"]:
             row.append(",".join("%d:%d" % ((s["loc"], s["val"]) if isinstance(s, dict) else tuple(s)) for s in sets) or "-")
             row.append(ev if isinstance(ev, str) else "/".join(ev))
+        row.append(",".join("%s:%s" % (o, n) for o, n in t.get("after", [])) or "-")
         lines.append(row)
     lines.append(["run"])
     return lines
